@@ -13,6 +13,7 @@ package main
 import (
 	"bufio"
 	"context"
+	"encoding/hex"
 	"encoding/json"
 	"flag"
 	"fmt"
@@ -137,7 +138,9 @@ func (g *gen) chunks(maxChunks, maxLen int) []slib.Chunk {
 		s := ""
 		for j := 0; j < l; j++ {
 			if r.Chance(1, 12) {
-				s += string(" .AxB\n"[r.Intn(6)]) // non-word / other characters for \b, upper case for (?i), a newline for "."
+				// non-word / other characters for \b, upper case for (?i), a newline for ".", two bytes >= 0x80 (values
+				// captured from them are substituted into later elements, F63; buffers may start inside the character)
+				s += []string{" ", ".", "A", "é", "B", "\n"}[r.Intn(6)]
 			} else {
 				s += string("abcd"[r.Intn(4)])
 			}
@@ -323,21 +326,29 @@ func doGen(seed uint64, n int, wide bool) {
 // runner + oracle
 // ---------------------------------------------------------------------------------------
 
+// hexStr: bytes that go to the Lean driver and to the check as a hex string — payload is bytes, a JSON string
+// cannot carry a buffer that starts or ends inside a multi-byte character
+type hexStr string
+
+func (h hexStr) MarshalJSON() ([]byte, error) {
+	return []byte(`"` + hex.EncodeToString([]byte(h)) + `"`), nil
+}
+
 type (
 	srcOut struct {
-		C  string   `json:"c"`
-		S  string   `json:"s"`
+		C  hexStr   `json:"c"`
+		S  hexStr   `json:"s"`
 		BL [][2]int `json:"bl"`
 	}
 	tableEntry struct {
-		Sub string `json:"b"`
+		Sub hexStr `json:"b"`
 		S   int    `json:"s"`
 		E   int    `json:"e"` // -1: no match
 	}
 	regexOut struct {
 		Expr   string       `json:"expr"`
-		Prefix string       `json:"p"`
-		Suffix string       `json:"x"`
+		Prefix hexStr       `json:"p"`
+		Suffix hexStr       `json:"x"`
 		Min    uint64       `json:"min"`
 		Max    uint64       `json:"max"`
 		Table  []tableEntry `json:"t"`
@@ -460,7 +471,7 @@ func (rn *runner) runCase(c *Case) (out outLine) {
 	srcs := env.Sources(c.Stream, conv)
 	for _, s := range srcs {
 		data, bl := slib.SizesOf(s)
-		out.Sources = append(out.Sources, srcOut{C: string(data[0]), S: string(data[1]), BL: bl})
+		out.Sources = append(out.Sources, srcOut{C: hexStr(data[0]), S: hexStr(data[1]), BL: bl})
 	}
 	reIdx := map[string]int{}
 	usedDirs := map[[2]int]bool{}
@@ -501,7 +512,7 @@ func (rn *runner) runCase(c *Case) (out outLine) {
 					if mx > 1<<40 {
 						mx = 1 << 40
 					}
-					out.Regexes = append(out.Regexes, &regexOut{Table: []tableEntry{}, Expr: e.Regex, Prefix: string(f.Prefix), Suffix: string(f.Suffix),
+					out.Regexes = append(out.Regexes, &regexOut{Table: []tableEntry{}, Expr: e.Regex, Prefix: hexStr(f.Prefix), Suffix: hexStr(f.Suffix),
 						Min: uint64(f.MinLen), Max: mx, Assert: hasAssert(e.Regex), Ctx: f.ContextSensitive})
 				}
 				d := int(e.Flags & query.DataRequirementSequenceFlagsDirection)
@@ -517,7 +528,7 @@ func (rn *runner) runCase(c *Case) (out outLine) {
 		re := binaryregexp.MustCompile(expr)
 		seen := map[string]bool{}
 		for _, s := range out.Sources {
-			for d, buf := range []string{s.C, s.S} {
+			for d, buf := range []string{string(s.C), string(s.S)} {
 				if !usedDirs[[2]int{i, d}] {
 					continue
 				}
@@ -529,7 +540,7 @@ func (rn *runner) runCase(c *Case) (out outLine) {
 						}
 						seen[sub] = true
 						m := re.FindSubmatchIndex([]byte(sub))
-						te := tableEntry{Sub: sub, S: 0, E: -1}
+						te := tableEntry{Sub: hexStr(sub), S: 0, E: -1}
 						if m != nil {
 							te.S, te.E = m[0], m[1]
 						}
